@@ -32,6 +32,7 @@ import LinVerif.Lemmas.C11Compose
 import LinVerif.Lemmas.C11Expr
 import LinVerif.Lemmas.C11Groups
 import LinVerif.Lemmas.C11Sorted
+import LinVerif.Lemmas.C11Sources
 import LinVerif.Generated.C11
 import LinVerif.Driver.C11
 
@@ -188,6 +189,16 @@ theorem rate_nil_guard_tie : rateWitness Generated.C11.fixRateNilGuard := by
       LinVerif.QueryExpr.binaryEval, LinVerif.QueryExpr.FArr.isEmpty, LinVerif.QueryExpr.paramOf,
       LinVerif.QueryExpr.defaultParam, Map.lookup, List.range, List.range.loop]
   exact h _
+
+/-- `dataLoad.Execute` (one operator per source of a family segment) decrements the shared
+`PendingDataLoadTasks` counter on EVERY return path — it is deferred as the first statement — so a
+source that returns early (all its series dropped out at grouping: they lack the group-by tag key)
+still lets `leafReduce` hand over what the other sources loaded (model: `leafGroup` reduces the
+calls of all sources, an empty source contributes no call). -/
+theorem data_load_pending_tie :
+    Generated.C11.dataLoadFirstStmt = "defer op.executeCtx.PendingDataLoadTasks.Dec()" ∧
+    Generated.C11.dataLoadOtherPendingStmts = [] := by
+  constructor <;> rfl
 
 /-- the memory database's created time is process-unique; `Cleanup` clears the time range kept
 under it (model: `Shard.newCreated`, `Shard.ranges`, `Shard.flush`). -/
@@ -447,7 +458,7 @@ theorem page_query_eq_naive_sorted (w : Nat) (hw : 0 < w) (A : AggType) (L : Lis
         (fun s => if tLo ≤ s ∧ s ≤ tHi ∧ (g0 + s - qs) / ratio = t then refSlots A ws s else none) := by
   obtain ⟨hinv, hview⟩ := run_refines w A ws (Buf.fresh w) (BufInv.fresh hw)
   have hs := runWrites_sorted w hw A ws [] (by simpa using hsorted) (by simpa [runWrites] using sortedB_fresh w)
-  rw [pageCalls_spec_sorted A L hL hAL _ hinv (by simpa using hs)]
+  rw [pageCalls_spec_sorted A A L hL hAL _ hinv (by simpa using hs)]
   apply fsum_congr
   intro s _
   rw [hview s]
@@ -513,6 +524,115 @@ theorem query_eq_naive_first_last_partial (w : Nat) (hw : 0 < w) (sch : List (Na
   have hr := hinv.refines fam ser q.field slot
   rw [hfa] at hr
   rw [hr]
+
+/-! ## several sources per family: the current merge order, exactly -/
+
+/-- **The leaf answer for the current merge order, at full strength**: every history with writes in
+time order inside a source (`sortedOps`), ANY function aggregate `F` selected on the field (own or
+not, commutative or not, first/last included), ANY number of sources per family, any group. The
+answer is the `F`-fold in LOAD order: families as listed; per family the memory database, then the
+level-0 files in flush order, then the compacted file (`srcFns`); per source the group's series;
+per series the bucket's slots ascending — of the value each source holds for the slot (already
+combined by the field's aggregate inside the source). This is what the code computes; where it
+differs from the reference are exactly the recorded findings (`Neg.last_field_flushed_value_wins`,
+`Neg.last_downsampling_flushed_slot_wins`, `Neg.max_of_split_sum_slot`), and the two theorems
+below give the conditions under which it IS the reference. -/
+theorem leaf_answer_in_load_order (w : Nat) (hw : 0 < w) (sch : List (Nat × FieldType)) (ops : List Op)
+    (hg : goodOps { Shard.init w with fieldTypes := sch } ops = true)
+    (hso : sortedOps { Shard.init w with fieldTypes := sch } ops)
+    (q : Query) (F : AggType) (sc : Scope) (fams group : List Nat) (hspf : 0 < q.spf)
+    (L : List AggType) (hL : L.Nodup) (hAL : F ∈ L) (hsc : ScopeOK q sc group) (t : Nat) :
+    arrGet (leafGroup (runOps { Shard.init w with fieldTypes := sch } ops) q sc L fams group) F t =
+      fsum F fams (fun fam =>
+        fsum F (srcFns (runOps { Shard.init w with fieldTypes := sch } ops) fam q.field)
+          (fun X => famBucket F q fam t group X)) := by
+  have hinv : Inv (runOps { Shard.init w with fieldTypes := sch } ops) (pointsOf ops) := by
+    simpa using inv_runOps ops _ [] (inv_init w hw sch) hg
+  exact leafGroup_load_order _ _ hinv (inv2_runOps ops _ (inv2_init w sch))
+    (pagesSorted_runOps ops _ [] (inv_init w hw sch) hg (pagesSorted_init w sch) hso) q F hL hAL sc hspf fams group hsc t
+
+/-- **Any commutative function, native or not** (`max(f)` / `min(f)` on a sum, last or first field,
+`sum(f)` on a last field …): when no slot of a queried family is held by two sources
+(`SlotsUnsplit`: no cell written again after its flush — the explicit hypothesis that excludes
+finding `max-of-sum-field-split-by-flush`) and writes arrive in time order inside a source (no slot
+in the compress buffer and in the window), the leaf answer of the function equals the reference:
+the function applied to the slots' values under the FIELD's aggregate. Any group, any families,
+any number of sources. -/
+theorem query_eq_naive_any_function_partial (w : Nat) (hw : 0 < w) (sch : List (Nat × FieldType)) (ops : List Op)
+    (hg : goodOps { Shard.init w with fieldTypes := sch } ops = true)
+    (hso : sortedOps { Shard.init w with fieldTypes := sch } ops)
+    (q : Query) (sc : Scope) (fams group : List Nat)
+    (hfa : (runOps { Shard.init w with fieldTypes := sch } ops).fieldAgg q.field = q.fieldAgg)
+    (hc : AggType.isComm q.funcAgg = true) (hspf : 0 < q.spf)
+    (L : List AggType) (hL : L.Nodup) (hAL : q.funcAgg ∈ L)
+    (hu : ∀ fam ∈ fams, SlotsUnsplit (runOps { Shard.init w with fieldTypes := sch } ops) fam q.field)
+    (hsc : ScopeOK q sc group) (t : Nat) :
+    arrGet (leafGroup (runOps { Shard.init w with fieldTypes := sch } ops) q sc L fams group) q.funcAgg t =
+      naiveBucket q (pointsOf ops) group fams t := by
+  have hinv : Inv (runOps { Shard.init w with fieldTypes := sch } ops) (pointsOf ops) := by
+    simpa using inv_runOps ops _ [] (inv_init w hw sch) hg
+  rw [leafGroup_eq_fsum_unsplit _ _ hinv (inv2_runOps ops _ (inv2_init w sch))
+    (pagesSorted_runOps ops _ [] (inv_init w hw sch) hg (pagesSorted_init w sch) hso) q q.funcAgg
+    (agg_comm_of_isComm hc) hL hAL sc hspf fams group hu hsc t, naiveBucket_eq_fsum]
+  apply fsum_congr
+  intro ser _
+  apply fsum_congr
+  intro fam _
+  apply fsum_congr
+  intro slot _
+  have hr := hinv.refines fam ser q.field slot
+  rw [hfa] at hr
+  rw [hr]
+
+/-- **first / last over several sources**: the field's own aggregate, commutative or not, one series
+per group, several sources per family — whenever, for the bucket asked, at most one source of
+each family holds a value (`BucketUnsplit`; strictly weaker than `OneSource`), the leaf answer is
+the reference. A bucket that lives in two sources is reduced in load order: the findings. -/
+theorem query_eq_naive_first_last_sources_partial (w : Nat) (hw : 0 < w) (sch : List (Nat × FieldType)) (ops : List Op)
+    (hg : goodOps { Shard.init w with fieldTypes := sch } ops = true)
+    (hso : sortedOps { Shard.init w with fieldTypes := sch } ops)
+    (q : Query) (sc : Scope) (fams : List Nat) (ser : Nat)
+    (hfa : (runOps { Shard.init w with fieldTypes := sch } ops).fieldAgg q.field = q.fieldAgg)
+    (hF : q.funcAgg = q.fieldAgg) (hspf : 0 < q.spf)
+    (L : List AggType) (hL : L.Nodup) (hAL : q.fieldAgg ∈ L) (t : Nat)
+    (hu : ∀ fam ∈ fams, BucketUnsplit q.fieldAgg (runOps { Shard.init w with fieldTypes := sch } ops) q fam t [ser])
+    (hsc : ScopeOK q sc [ser]) :
+    arrGet (leafGroup (runOps { Shard.init w with fieldTypes := sch } ops) q sc L fams [ser]) q.fieldAgg t =
+      naiveBucket q (pointsOf ops) [ser] fams t := by
+  have hinv : Inv (runOps { Shard.init w with fieldTypes := sch } ops) (pointsOf ops) := by
+    simpa using inv_runOps ops _ [] (inv_init w hw sch) hg
+  have := leafGroup_eq_fsum_bucket_unsplit _ _ hinv (inv2_runOps ops _ (inv2_init w sch))
+    (pagesSorted_runOps ops _ [] (inv_init w hw sch) hg (pagesSorted_init w sch) hso) q hL (by rw [hfa]; exact hAL)
+    sc hspf fams ser t (by rw [hfa]; exact hu) hsc
+  rw [hfa] at this
+  rw [this, naiveBucket_eq_fsum, hF, fsum_cons, fsum_nil, ocomb_none_right]
+  apply fsum_congr
+  intro fam _
+  apply fsum_congr
+  intro slot _
+  have hr := hinv.refines fam ser q.field slot
+  rw [hfa] at hr
+  rw [hr]
+
+/-- instances: `max(f)` on a sum field whose slots live in a file and in memory but never in both,
+and `last(f)` over a family with a file and a memory database whose buckets do not meet. -/
+example :
+    let ops : List Op := [.write 1 0 1 1 .sum 3 4, .write 1 0 1 1 .sum 3 5, .write 1 0 1 1 .sum 9 2, .flush 0,
+      .write 2 0 1 1 .sum 14 7, .write 2 0 1 1 .sum 14 1, .write 2 0 2 1 .sum 3 20]
+    let s := runOps { Shard.init 15 with fieldTypes := [(1, .sum)] } ops
+    let q : Query := ⟨1, .sum, .max, 32, 0, 31, 6⟩
+    bucketsOf q (leafGroup s q ⟨[1], [1, 2]⟩ [.sum, .max] [0] [1, 2]) .max = [(0, 20), (1, 2), (2, 8)] ∧
+    naiveGroup q (pointsOf ops) [1, 2] [0] = [(0, 20), (1, 2), (2, 8)] := by
+  decide
+
+example :
+    let ops : List Op := [.write 1 0 1 4 .last 3 1, .write 1 0 1 4 .last 4 2, .flush 0,
+      .write 2 0 1 4 .last 13 3, .write 2 0 1 4 .last 14 4]
+    let s := runOps { Shard.init 15 with fieldTypes := [(4, .last)] } ops
+    let q : Query := ⟨4, .last, .last, 32, 0, 31, 6⟩
+    bucketsOf q (leafGroup s q ⟨[4], [1]⟩ [.last] [0] [1]) .last = [(0, 2), (2, 4)] ∧
+    naiveGroup q (pointsOf ops) [1] [0] = [(0, 2), (2, 4)] := by
+  decide
 
 /-- an instance with a `last` field: out-of-window but time-ordered writes (window compactions),
 a second family that was flushed (one file, no memory database), ratio 6. -/
@@ -822,14 +942,15 @@ theorem expr_eval_congr (g : Bool) (n sec : Nat) (s1 s2 : Store) (e : Expr) (par
   eval_congr g n sec s1 s2 e parent h
 
 open LinVerif.QueryExpr in
-/-- **No panic**, source with the nil guard in `RateCall` (fixes/C11-rate-nil-guard.patch): no select
+/-- **No panic**, source with the nil guard in `RateCall` (fix ad91846, the current source — see
+`rate_nil_guard_tie`): no select
 item, on no field store, panics. -/
 theorem expr_no_panic_guarded (n sec : Nat) (st : Store) (e : Expr) (parent : Option FuncType) :
     (match eval true n sec st parent e with | .crash => False | _ => True) :=
   eval_no_crash_guarded n sec st e parent
 
 open LinVerif.QueryExpr in
-/-- **No panic**, current source, `_partial`: an item without `rate(...)` directly over a (possibly
+/-- **No panic**, source without the guard (before fix ad91846), `_partial`: an item without `rate(...)` directly over a (possibly
 parenthesised) binary expression does not panic. The exact gap is `Neg.rate_of_nil_array_panics`. -/
 theorem expr_no_panic_partial (g : Bool) (n sec : Nat) (st : Store) (e : Expr) (parent : Option FuncType)
     (h : rateSafe e = true) :
@@ -915,25 +1036,18 @@ theorem lookup_map_arrays (L : List AggType) (g : AggType → List (Nat × Int))
       simp [Map.lookup, h, ih, this]
 
 open LinVerif.QueryExpr in
-/-- **Select items end to end**: `sum(f)*2`, `f+g`, `(f-g)/max_field`, `rate(f)` … evaluated on the
-leaf answer of a group = evaluated on the naive reference of the group, for every history of
-writes / flushes / compactions / reopens, provided every array the item READS is the array of its
-field's own commutative aggregate (`hown`; the other functions selected on the same fields — the
-agg types `p.aggs` — are arbitrary, their arrays are not read by this item). -/
-theorem select_item_eq_naive_partial (w : Nat) (hw : 0 < w) (sch : List (Nat × FieldType)) (ops : List Op)
-    (hg : goodOps { Shard.init w with fieldTypes := sch } ops = true)
-    (q0 : Query) (hspf : 0 < q0.spf) (sc : Scope) (fams group : List Nat) (flds : List Planned)
-    (hflds : ∀ p ∈ flds, (runOps { Shard.init w with fieldTypes := sch } ops).fieldAgg p.field = p.ftype.aggType ∧
-      p.aggs.Nodup ∧ p.field ∈ sc.fields)
-    (hgrp : ∀ ser ∈ group, ser ∈ sc.series)
+/-- the expression layer on top of ANY per-array statement: when the arrays the item reads are the
+reference's, the item evaluates alike on the leaf answer and on the reference. -/
+theorem select_item_eq_of_arrays (S : Shard) (pts : List Point)
+    (q0 : Query) (sc : Scope) (fams group : List Nat) (flds : List Planned)
     (g : Bool) (n sec : Nat) (e : Expr)
-    (hown : ∀ p ∈ flds, ∀ A, (p.field, A) ∈ reads (leafStore (runOps { Shard.init w with fieldTypes := sch } ops) q0 sc flds fams group) none e →
-      A = p.ftype.aggType ∧ AggType.isComm A = true) :
+    (harr : ∀ p ∈ flds, ∀ A, (p.field, A) ∈ reads (leafStore S q0 sc flds fams group) none e → A ∈ p.aggs →
+      bucketsOf (p.query q0 A) (leafGroup S (p.query q0 A) sc p.aggs fams group) A =
+        naiveGroup (p.query q0 A) pts group fams) :
     EVal.same n
-      (evalItem g n sec (leafStore (runOps { Shard.init w with fieldTypes := sch } ops) q0 sc flds fams group) e)
-      (evalItem g n sec (naiveStore q0 (pointsOf ops) flds fams group) e) := by
-  have hemp : (leafStore (runOps { Shard.init w with fieldTypes := sch } ops) q0 sc flds fams group).isEmpty =
-      (naiveStore q0 (pointsOf ops) flds fams group).isEmpty := by
+      (evalItem g n sec (leafStore S q0 sc flds fams group) e)
+      (evalItem g n sec (naiveStore q0 pts flds fams group) e) := by
+  have hemp : (leafStore S q0 sc flds fams group).isEmpty = (naiveStore q0 pts flds fams group).isEmpty := by
     unfold leafStore naiveStore mkStore
     cases flds <;> rfl
   unfold evalItem
@@ -955,20 +1069,75 @@ theorem select_item_eq_naive_partial (w : Nat) (hw : 0 < w) (sch : List (Nat × 
         subst h1 h2
         have hp : p ∈ flds := List.mem_of_find?_eq_some hfind
         have hpf : p.field = f := by simpa using List.find?_some hfind
-        obtain ⟨hfa, hnd, hfs⟩ := hflds p hp
-        obtain ⟨hA, hc⟩ := hown p hp A (by rw [hpf]; exact hmem)
         simp only [arrGet, lookup_map_arrays]
         by_cases hAL : A ∈ p.aggs
         · simp only [hAL, if_true]
-          have := query_group_eq_naive_partial w hw sch ops hg (p.query q0 A) sc fams group
-            (by simpa [Planned.query] using hfa) (by simp [Planned.query, hA]) (by simpa [Planned.query, ← hA] using hc)
-            (by simpa [Planned.query] using hspf) p.aggs hnd (by simpa [Planned.query, ← hA] using hAL)
-            ⟨by simpa [Planned.query] using hfs, hgrp⟩
-          have hq : (p.query q0 A).fieldAgg = A := by simp [Planned.query, hA]
-          rw [hq] at this
-          rw [this]
+          rw [harr p hp A (by rw [hpf]; exact hmem) hAL]
           exact ⟨rfl, fun _ _ => rfl⟩
         · simp [hAL]
+
+open LinVerif.QueryExpr in
+/-- **Select items end to end**: `sum(f)*2`, `f+g`, `(f-g)/max_field`, `rate(f)` … evaluated on the
+leaf answer of a group = evaluated on the naive reference of the group, for every history of
+writes / flushes / compactions / reopens, provided every array the item READS is the array of its
+field's own commutative aggregate (`hown`; the other functions selected on the same fields — the
+agg types `p.aggs` — are arbitrary, their arrays are not read by this item). -/
+theorem select_item_eq_naive_partial (w : Nat) (hw : 0 < w) (sch : List (Nat × FieldType)) (ops : List Op)
+    (hg : goodOps { Shard.init w with fieldTypes := sch } ops = true)
+    (q0 : Query) (hspf : 0 < q0.spf) (sc : Scope) (fams group : List Nat) (flds : List Planned)
+    (hflds : ∀ p ∈ flds, (runOps { Shard.init w with fieldTypes := sch } ops).fieldAgg p.field = p.ftype.aggType ∧
+      p.aggs.Nodup ∧ p.field ∈ sc.fields)
+    (hgrp : ∀ ser ∈ group, ser ∈ sc.series)
+    (g : Bool) (n sec : Nat) (e : Expr)
+    (hown : ∀ p ∈ flds, ∀ A, (p.field, A) ∈ reads (leafStore (runOps { Shard.init w with fieldTypes := sch } ops) q0 sc flds fams group) none e →
+      A = p.ftype.aggType ∧ AggType.isComm A = true) :
+    EVal.same n
+      (evalItem g n sec (leafStore (runOps { Shard.init w with fieldTypes := sch } ops) q0 sc flds fams group) e)
+      (evalItem g n sec (naiveStore q0 (pointsOf ops) flds fams group) e) := by
+  apply select_item_eq_of_arrays
+  intro p hp A hmem hAL
+  obtain ⟨hfa, hnd, hfs⟩ := hflds p hp
+  obtain ⟨hA, hc⟩ := hown p hp A hmem
+  have := query_group_eq_naive_partial w hw sch ops hg (p.query q0 A) sc fams group
+    (by simpa [Planned.query] using hfa) (by simp [Planned.query, hA]) (by simpa [Planned.query, ← hA] using hc)
+    (by simpa [Planned.query] using hspf) p.aggs hnd (by simpa [Planned.query, ← hA] using hAL)
+    ⟨by simpa [Planned.query] using hfs, hgrp⟩
+  have hq : (p.query q0 A).fieldAgg = A := by simp [Planned.query, hA]
+  rw [hq] at this
+  exact this
+
+open LinVerif.QueryExpr in
+/-- **Select items over any commutative functions** (`max(f)/sum(f)`, `min(f)+max(g)` … native or
+not): the same, for histories with time-ordered writes inside a source and no slot of a queried
+family held by two sources (`SlotsUnsplit`), when every array the item reads belongs to a
+commutative function. -/
+theorem select_item_eq_naive_any_function_partial (w : Nat) (hw : 0 < w) (sch : List (Nat × FieldType)) (ops : List Op)
+    (hg : goodOps { Shard.init w with fieldTypes := sch } ops = true)
+    (hso : sortedOps { Shard.init w with fieldTypes := sch } ops)
+    (q0 : Query) (hspf : 0 < q0.spf) (sc : Scope) (fams group : List Nat) (flds : List Planned)
+    (hflds : ∀ p ∈ flds, (runOps { Shard.init w with fieldTypes := sch } ops).fieldAgg p.field = p.ftype.aggType ∧
+      p.aggs.Nodup ∧ p.field ∈ sc.fields ∧
+      ∀ fam ∈ fams, SlotsUnsplit (runOps { Shard.init w with fieldTypes := sch } ops) fam p.field)
+    (hgrp : ∀ ser ∈ group, ser ∈ sc.series)
+    (g : Bool) (n sec : Nat) (e : Expr)
+    (hcomm : ∀ p ∈ flds, ∀ A, (p.field, A) ∈ reads (leafStore (runOps { Shard.init w with fieldTypes := sch } ops) q0 sc flds fams group) none e →
+      AggType.isComm A = true) :
+    EVal.same n
+      (evalItem g n sec (leafStore (runOps { Shard.init w with fieldTypes := sch } ops) q0 sc flds fams group) e)
+      (evalItem g n sec (naiveStore q0 (pointsOf ops) flds fams group) e) := by
+  apply select_item_eq_of_arrays
+  intro p hp A hmem hAL
+  obtain ⟨hfa, hnd, hfs, hu⟩ := hflds p hp
+  unfold bucketsOf naiveGroup
+  congr 1
+  funext t
+  have := query_eq_naive_any_function_partial w hw sch ops hg hso (p.query q0 A) sc fams group
+    (by simpa [Planned.query] using hfa) (by simpa [Planned.query] using hcomm p hp A hmem)
+    (by simpa [Planned.query] using hspf) p.aggs hnd (by simpa [Planned.query] using hAL)
+    (by simpa [Planned.query] using hu) ⟨by simpa [Planned.query] using hfs, hgrp⟩ t
+  have hq : (p.query q0 A).funcAgg = A := by simp [Planned.query]
+  rw [hq] at this
+  rw [this]
 
 /-! ## proved negations (witnesses replayed against the implementation on every run) -/
 
@@ -1090,7 +1259,7 @@ theorem max_of_split_sum_slot :
       (pointsOf [.write 1 0 1 1 .sum 7 4, .flush 0, .write 2 0 1 1 .sum 7 16]) [1] [0] 7 = some 20 := by
   decide
 
-/-- `expr-rate-of-valueless-operands-panics` (current source): a min field whose array holds no
+/-- `expr-rate-of-valueless-operands-panics` (source before fix ad91846, `guard = false`): a min field whose array holds no
 value in the query range (the series has data in the family, outside the range, so the leaf answers
 the group with an empty array): `rate(fmin - fmin)` — `binaryEval` of two empty arrays returns the
 nil array and `RateCall` dereferences it. With the nil guard the item has no result. -/
